@@ -63,7 +63,7 @@ theorem release_ok_secret {c : Chan} {n : Nat} (hok : (release c n).res = .ok) (
   repeat' split at hok
   all_goals simp at hok
   all_goals simp_all
-  rw [if_neg (by omega), if_neg (by omega), if_neg (by omega)]
+  rw [if_neg (by omega), if_neg (by omega)]
 
 theorem release_signed (c : Chan) (n : Nat) : (release c n).signed = none := by
   unfold release getSecret
@@ -97,22 +97,24 @@ theorem facts_revoke (c : Chan) (n : Nat) : Facts c.next c.closed (revoke c n) :
     · rename_i hcl
       split
       · exact facts_fail c _
-      · dsimp only
-        split
-        · rename_i hok
-          constructor <;> simp [release_signed, hn]
-          · intro k hk
-            have := release_secret hk
-            simp at this
-            omega
-          · intro hc; exact absurd hc hcl
-          · intro h1
-            subst hn
-            exact release_ok_secret hok h1
-        · rename_i hnok
-          constructor <;> simp [release_signed]
-          intro k hk
-          exact absurd (release_secret_ok hk) hnok
+      · split
+        · refine ⟨Nat.le_refl _, fun h => h, by simp, by simp, fun _ => Or.inl rfl, fun h => absurd h (Nat.lt_irrefl _)⟩
+        · dsimp only
+          split
+          · rename_i hok
+            constructor <;> simp [release_signed, hn]
+            · intro k hk
+              have := release_secret hk
+              simp at this
+              omega
+            · intro hc; exact absurd hc hcl
+            · intro h1
+              subst hn
+              exact release_ok_secret hok h1
+          · rename_i hnok
+            constructor <;> simp [release_signed]
+            intro k hk
+            exact absurd (release_secret_ok hk) hnok
 
 theorem facts_activate (c : Chan) : Facts c.next c.closed (activate c) := by
   unfold activate
